@@ -32,6 +32,7 @@ SameN(t, n, v, w) == IF TypeTable[t].cl = "dtn" /\ n = 8 /\ v.k = "tm" /\ w.k = 
 LenOK(t, n, b) == (TypeTable[t].cl \in {"money", "dtn"} /\ n > 0 /\ b # <<>>) => Len(b) = n
 
 T_RT == /\ IsEvent("RT") /\ E.t \in Types /\ E.err = ""
+        /\ E.stable                        \* encoding this value left the bytes of the value before it alone
         /\ (J04 => SameN(E.t, E.n, E.v, E.v2))
         /\ (J05 => Rel(E.t, E.v, E.b) /\ Rel(E.t, E.v2, E.b) /\ LenOK(E.t, E.n, E.b))
 T_Dec == /\ IsEvent("Dec") /\ E.t \in Types
